@@ -98,7 +98,28 @@ func (ex *exec) fmtInt(t *Term, signed bool) value {
 		return fmt.Sprint(t.U)
 	}
 	if !signed {
-		return symv{tIntToStr(tBV2Int(t))}
+		n := tBV2Int(t)
+		s := tIntToStr(n)
+		// lemma instances: str.from_int is injective on non-negative integers
+		if _, seen := ex.fromInts[n]; !seen {
+			for m, sm := range ex.fromInts {
+				ex.assertTerm(tImplies(tEq(s, sm), tEq(n, m)))
+			}
+			ex.fromInts[n] = s
+		}
+		// lemma: when the assumptions pin the number of decimal digits, tell the
+		// string solver the length of the formatted text (a valid consequence)
+		if n.Op == "var" {
+			lb, okl := ex.lbounds[n]
+			ub, oku := ex.ubounds[n]
+			if !okl {
+				lb, okl = 0, true
+			}
+			if okl && oku && ndigits(lb) == ndigits(ub) {
+				ex.assertTerm(tEq(tStrLen(s), tIntConst(int64(ndigits(ub)))))
+			}
+		}
+		return symv{s}
 	}
 	neg := tBVCmp("bvslt", t, tBV(t.S.W, 0))
 	pos := tIntToStr(tBV2Int(t))
@@ -210,4 +231,13 @@ func (ex *exec) sprint(args []value, ln bool) value {
 		return fmt.Sprintln(natives...)
 	}
 	return fmt.Sprint(natives...)
+}
+
+func ndigits(v uint64) int {
+	n := 1
+	for v >= 10 {
+		v /= 10
+		n++
+	}
+	return n
 }
